@@ -207,6 +207,107 @@ let sort_top (s : string) : string =
     String.sub s 0 (i + 1) ^ String.concat ";" (List.sort compare !parts) ^ ")"
   | _ -> s
 
+let starts_with s p = String.length s >= String.length p && String.sub s 0 (String.length p) = p
+let contains s p =
+  let n = String.length p in
+  let rec go i = i + n <= String.length s && (String.sub s i n = p || go (i + 1)) in go 0
+
+(* ---------------------------------------------------------------- typed carriers (Model/CqlTyped.v) *)
+
+(* the Rust type name of a carrier (as printed by the runner) -> the model's carrier; None = not
+   modelled (chrono, time, bigdecimal) *)
+let split_args (s : string) : string list =
+  let parts = ref [] and depth = ref 0 and st = ref 0 in
+  String.iteri (fun j ch ->
+      if ch = '<' || ch = '(' then incr depth else if ch = '>' || ch = ')' then decr depth
+      else if ch = ',' && !depth = 0 then (parts := String.sub s !st (j - !st) :: !parts; st := j + 1)) s;
+  parts := String.sub s !st (String.length s - !st) :: !parts;
+  List.filter (fun x -> x <> "") (List.rev !parts)
+
+let rec carrier_of_name (s : string) : carrier option =
+  let n = String.length s in
+  let all l = if List.for_all (fun x -> x <> None) l then Some (List.map (function Some x -> x | None -> assert false) l) else None in
+  if n > 1 && s.[0] = '(' && s.[n - 1] = ')' then
+    Option.map (fun ks -> KTuple ks) (all (List.map carrier_of_name (split_args (String.sub s 1 (n - 2)))))
+  else match String.index_opt s '<' with
+    | Some i when s.[n - 1] = '>' ->
+      let head = String.sub s 0 i and args = split_args (String.sub s (i + 1) (n - i - 2)) in
+      (match head, args with
+       | "Vec", ["u8"] -> Some (KLeaf LBlob)
+       | "Option", [a] -> Option.map (fun k -> KOption k) (carrier_of_name a)
+       | "MaybeUnset", [a] -> Option.map (fun k -> KMaybeUnset k) (carrier_of_name a)
+       | "MaybeEmpty", [a] -> Option.map (fun k -> KMaybeEmpty k) (carrier_of_name a)
+       | ("Box" | "Arc" | "RefOf" | "secrecy_08::Secret" | "secrecy_10::SecretBox"), [a] ->
+         Option.map (fun k -> KPtr k) (carrier_of_name a)
+       | ("Vec" | "SliceOf" | "secrecy_10::SecretSlice"), [a] -> Option.map (fun k -> KVec k) (carrier_of_name a)
+       | ("BTreeSet" | "HashSet"), [a] -> Option.map (fun k -> KSetC k) (carrier_of_name a)
+       | ("BTreeMap" | "HashMap"), [a; b] ->
+         (match carrier_of_name a, carrier_of_name b with Some x, Some y -> Some (KMapC (x, y)) | _ -> None)
+       | _ -> None)
+    | _ ->
+      (match s with
+       | "i8" -> Some (KLeaf LI8) | "i16" -> Some (KLeaf LI16) | "i32" -> Some (KLeaf LI32) | "i64" -> Some (KLeaf LI64)
+       | "f32" -> Some (KLeaf LF32) | "f64" -> Some (KLeaf LF64) | "bool" -> Some (KLeaf LBool)
+       | "String" | "RefStr" | "CowStr" | "BoxStr" | "ArcStr" | "secrecy_10::SecretString" -> Some (KLeaf LString)
+       | "bytes::Bytes" | "RefSlice" | "Arr4" -> Some (KLeaf LBlob)
+       | "IpAddr" -> Some (KLeaf LInet) | "uuid::Uuid" -> Some (KLeaf LUuid) | "CqlTimeuuid" -> Some (KLeaf LTimeuuid)
+       | "CqlDate" -> Some (KLeaf LDate) | "CqlTime" -> Some (KLeaf LTime) | "CqlTimestamp" -> Some (KLeaf LTimestamp)
+       | "CqlDuration" -> Some (KLeaf LDuration) | "Counter" -> Some (KLeaf LCounter)
+       | "CqlVarint" | "VarintB" -> Some (KLeaf LVarint) | "CqlDecimal" | "DecimalB" -> Some (KLeaf LDecimal)
+       | "num_bigint_03::BigInt" | "num_bigint_04::BigInt" -> Some (KLeaf LBigInt)
+       | "CqlValue" -> Some KDyn
+       | _ -> None)
+
+(* BTree / Hash carriers return sets and maps sorted (or in hash order) and without duplicates
+   (a later map entry replaces an earlier one): compare such results up to that canonical form *)
+let rec canon_val (v : cval) : cval =
+  let dedup_sorted key l =
+    let l = List.stable_sort (fun a b -> compare (key a) (key b)) l in
+    let rec go = function
+      | a :: (b :: _ as r) when key a = key b -> go r        (* keep the LAST of equal keys *)
+      | a :: r -> a :: go r
+      | [] -> [] in go l in
+  match v with
+  | CSet l -> CSet (dedup_sorted s_val (List.map canon_val l))
+  | CMap l -> CMap (dedup_sorted (fun (k, _) -> s_val k) (List.map (fun (k, x) -> (canon_val k, canon_val x)) l))
+  | CList l -> CList (List.map canon_val l)
+  | CVector l -> CVector (List.map canon_val l)
+  | CTuple l -> CTuple (List.map (Option.map canon_val) l)
+  | CUdt (a, b, fs) -> CUdt (a, b, List.map (fun (n, o) -> (n, Option.map canon_val o)) fs)
+  | _ -> v
+let canon_cell = function CVal v -> CVal (canon_val v) | c -> c
+let canon_result (s : string) : string =
+  match strip_ok s with
+  | Some body -> (try "ok:" ^ s_cell (canon_cell (cell_of_string body)) with _ -> s)
+  | None -> s
+let sorting_carrier (carrier : string) : bool = contains carrier "BTree" || contains carrier "Hash"
+
+let s_typed_read k t (b : n list) : string =
+  match typed_read_cell k t b with
+  | Ok (Some c) -> "ok:" ^ s_cell c
+  | Ok None -> "unembeddable"
+  | Err e -> "err:" ^ de_err_name e
+
+(* the TYPED model against the typed implementation, for a T case; None = agrees / not comparable *)
+let typed_compared = ref false
+let typed_model_diff ~unordered carrier t c impl_ser impl_deser : string option =
+  typed_compared := false;
+  match carrier_of_name carrier with
+  | None -> None
+  | Some k ->
+    (match of_cell k t c with
+     | None -> None
+     | Some v ->
+       typed_compared := true;
+       let mw = s_ser (typed_write k true t v) in
+       if mw <> impl_ser then Some ("typed-model ser=" ^ mw)
+       else match strip_ok impl_ser with
+         | Some hx when typed_check k t ->
+           let mr = s_typed_read k t (bytes_of_hexstr hx) in
+           let norm x = if unordered || sorting_carrier carrier then canon_result x else x in
+           if mr = "unembeddable" || norm mr = norm impl_deser then None else Some ("typed-model deser=" ^ mr)
+         | _ -> None)
+
 (* ---------------------------------------------------------------- verdicts *)
 
 (* The property evaluated on the IMPLEMENTATION's outputs for (t, c):
@@ -226,7 +327,7 @@ let property_failure t c (impl_ser : string) (impl_deser : string) : (failure * 
         if impl_deser <> want then Some (Decode, "decodes to " ^ impl_deser ^ " instead of " ^ want)
         else None
 
-let verdict_rt ~(unordered : bool) t c impl_ser impl_deser =
+let verdict_rt ?(carrier = "") ~(unordered : bool) t c impl_ser impl_deser =
   (* Hash carriers iterate in an arbitrary order: take the order the implementation used (read
      off its bytes with the model decoder), require the same multiset of elements, then go on
      as in the ordered case; decoded collections are compared as sorted element lists. *)
@@ -263,7 +364,12 @@ let verdict_rt ~(unordered : bool) t c impl_ser impl_deser =
       (* outside the quantifier: not a value of the type, accepted by the writer, not read back *)
       (match strip_ok impl_ser with
        | Some _ when not (wf_cell t c) && impl_deser_n <> "ok:" ^ s_cell (pad_cell t c) -> "ok obs=accepted-not-of-type-not-read-back"
-       | _ -> "ok")
+       | _ ->
+         (* the typed carrier's own model (Model/CqlTyped.v) against the typed implementation *)
+         if carrier = "" then "ok"
+         else match typed_model_diff ~unordered carrier t c impl_ser impl_deser with
+           | None -> if !typed_compared then "ok tm" else "ok"
+           | Some d -> "diff " ^ d)
   | Some (kind, why) ->
     (match cls with
      | Some k when agrees || (kind = NotEncoding && agrees_ser && k = KA_vector_null_element) ->
@@ -284,7 +390,18 @@ let verdict case impl =
     let unordered = starts_with carrier "Hash" in
     (* only the top level of a printed collection is order-normalised *)
     if contains carrier "Hash" && not unordered then "error nested-hash-carrier-not-supported"
-    else verdict_rt ~unordered (type_of_string ts) (cell_of_string cs) iser ideser
+    else verdict_rt ~carrier ~unordered (type_of_string ts) (cell_of_string cs) iser ideser
+  | ["E"; carrier; ts; hx], [ideser] ->
+    (* a typed decoder on corrupted / arbitrary bytes against its model *)
+    (match carrier_of_name carrier with
+     | None -> "error unmodelled-carrier"
+     | Some k ->
+       let t = type_of_string ts in
+       if not (typed_check k t) then (if ideser = "err:TypeCheck" then "ok" else "diff typed-model=err:TypeCheck")
+       else
+         let m = s_typed_read k t (bytes_of_hexstr hx) in
+         let norm x = if sorting_carrier carrier then canon_result x else x in
+         if m = "unembeddable" then "ok unembeddable" else if norm m = norm ideser then "ok" else "diff typed-model=" ^ m)
   | [("V" | "Q") as kind; _carrier; ets; dims; cs], [iser; ideser] ->
     let e = type_of_string ets and cells = cells_of_string cs in
     let vals = List.filter_map (function CVal v -> Some v | _ -> None) cells in
